@@ -386,6 +386,36 @@ Section Walk.
          | Some p => d <- tag_depth fc p 0 ;; Ok (S d)
          end.
 
+  (* .document: a TagNode takes the top of its ancestor chain (itself without parent) and reads its `__document__`;
+     the others ask their parent, and have none without parent.  Modelled up to the node that carries `__document__`. *)
+  Definition w_document_root (n : nid) : res (option nid) :=
+    p <- parent n ;;
+    match p with
+    | None => Ok (if is_tag n then Some n else None)
+    | Some q => if is_tag n then l <- w_iterate_ancestors ftrue n ;; Ok (last_error l)
+                else pp <- parent q ;;
+                     match pp with
+                     | None => Ok (Some q)
+                     | Some _ => l <- w_iterate_ancestors ftrue q ;; Ok (last_error l)
+                     end
+    end.
+
+  (* TagNode.location_path: inside `with altered_default_filters(is_tag_node):` - the caller's ambient filter is
+     replaced - the ancestors without the root, reversed, then the node; each step is its index + 1.
+     Result: the list of step numbers ([] stands for "/*"). *)
+  Definition map_res {A B} (f : A -> res B) :=
+    fix go (l : list A) : res (list B) :=
+      match l with [] => Ok [] | x :: r => y <- f x ;; ys <- go r ;; Ok (y :: ys) end.
+  Definition w_location_path (n : nid) : res (list nat) :=
+    p <- parent n ;;
+    match p with
+    | None => Ok []
+    | Some _ =>
+        anc <- w_iterate_ancestors ftrue n ;;
+        map_res (fun x => i <- w_index is_tag x ;; match i with Some k => Ok (S k) | None => Crash TypeError end)
+                (rev (removelast anc) ++ [n])
+    end.
+
   (* _iterate_following *)
   Fixpoint climb (fuel : nat) (node : nid) : res (option nid) :=       (* next_sibling_of_an_ancestor *)
     match fuel with
@@ -525,6 +555,8 @@ Section OnHeap.
   Definition h_last_descendant := w_last_descendant FR NX TG fu.
   Definition h_iterate_ancestors (D : nfilter) := w_iterate_ancestors PA fu.      (* D: not consulted *)
   Definition h_depth (D : nfilter) := w_depth PA TG fu.
+  Definition h_document_root (D : nfilter) := w_document_root PA TG fu.          (* D: not consulted *)
+  Definition h_location_path (D : nfilter) := w_location_path FR NX PA TG fu.    (* D: replaced by is_tag_node *)
   Definition h_iterate_following := w_iterate_following FR NX PA TG fu fu.
   Definition h_iterate_preceding (D : nfilter) := w_iterate_preceding FR NX PV PA TG fu fu.     (* D: not consulted *)
   Definition h_fetch_following := w_fetch_following FR NX PA TG fu fu.
@@ -553,6 +585,8 @@ Definition c_iterate_descendants (e : cel) := h_iterate_descendants (heap_top e)
 Definition c_last_descendant (e : cel) := h_last_descendant (heap_top e).
 Definition c_iterate_ancestors (e : cel) := h_iterate_ancestors (heap_top e).
 Definition c_depth (e : cel) := h_depth (heap_top e).
+Definition c_document_root (e : cel) := h_document_root (heap_top e).
+Definition c_location_path (e : cel) := h_location_path (heap_top e).
 Definition c_iterate_following (e : cel) := h_iterate_following (heap_top e).
 Definition c_iterate_preceding (e : cel) := h_iterate_preceding (heap_top e).
 Definition c_fetch_following (e : cel) := h_fetch_following (heap_top e).
